@@ -248,6 +248,10 @@ def probe_call(kwargs, kind, logfile=None, loglist=None, ctl=None, hidden=None):
         raise exc("probe told to fail on " + key)
     if key in c.get("unpicklable", ()):
         return (lambda: None)          # a result that cannot be written to disk
+    if c.get("nan_results"):
+        # a region of the parameter space where the function has no answer: every number it returns is NaN
+        v = make(kind, kwargs, hidden)
+        return tuple(float("nan") for _ in v) if isinstance(v, tuple) else float("nan")
     return make(kind, kwargs, hidden)
 
 
